@@ -161,6 +161,16 @@ def direct_cases():
                              ('repeat', hdr, [P(v('L')), P(v('x'))]), P(v('x'))], pop))
                 out.append(([('repeat', hdr, [P(v('x')), ('assign', 'x', plus(v('x'), num(1)))]),
                              P(v('x'))], pop))
+        # a name that is also a macro (`define step 10`) re-used as a loop's index or light variable:
+        # inside the loop the name is the loop's variable
+        out.append(([('define_macro', 'step', num(10)),
+                     ('repeat', ('range', 'step', num(1), num(3)), [P(v('step'))])], pop))
+        out.append(([('define_macro', 'n', num(2)),
+                     ('repeat', ('interp', ('macro', 'n'), 'n', num(5), num(6)), [P(v('n'))])], pop))
+        out.append(([('define_macro', 'lamp', ('str', 'x')),
+                     ('repeat', ('all', 'lamp', None), [P(v('lamp'))])], pop))
+        out.append(([('define_macro', 'angle', num(7)),
+                     ('repeat', ('cycle', num(3), 'angle', None), [P(v('angle'))])], pop))
         # while re-tests before every pass; break ends only the innermost loop
         out.append(([('assign', 'y', num(0)),
                      ('repeat', ('while', ('expr', ('bin', '<', v('y'), num(4))), 'y'),
